@@ -9,6 +9,7 @@ mod sys;
 mod c11;
 mod c12;
 mod c16;
+mod c17;
 mod c20;
 
 fn main() {
@@ -28,6 +29,7 @@ fn main() {
         "c09" => c11::run_c09(rest),
         "c12" => c12::run(rest),
         "c16" => c16::run(rest),
+        "c17" => c17::run(rest),
         "c20" => c20::run(rest),
         other => {
             eprintln!("unknown command {other}");
